@@ -53,12 +53,13 @@ const (
 	CtTimersFired
 	CtSpawned
 	CtFinalizersRun
+	CtSimMicros // simulated time covered by the run's clock, in microseconds
 	NumCounters
 )
 
 // CounterNames for evidence.
 var CounterNames = [NumCounters]string{"pool_get", "pool_get_hit", "pool_get_new", "pool_put",
-	"fault_putdrop", "fault_miss", "fault_gc", "gc_dropped_objects", "steps", "task_switches", "inner_yields", "fault_stall", "blocked_yields", "spin_breaks", "fault_clock_jump", "timers_fired", "library_goroutines_as_tasks", "finalizers_run"}
+	"fault_putdrop", "fault_miss", "fault_gc", "gc_dropped_objects", "steps", "task_switches", "inner_yields", "fault_stall", "blocked_yields", "spin_breaks", "fault_clock_jump", "timers_fired", "library_goroutines_as_tasks", "finalizers_run", "simulated_microseconds"}
 
 // FaultDen is the denominator of all fault rates.
 const FaultDen = 256
@@ -137,6 +138,7 @@ type Sim struct {
 	mail         []*mailItem
 	fin          finState
 	finishedRun  bool
+	Deadlocked   string // non-empty: the run was abandoned because every live task was blocked
 	inRun        bool
 	clock
 
@@ -151,6 +153,19 @@ type Sim struct {
 }
 
 var cur *Sim
+
+// FatalHook, if set, is called before the process exits with status 2
+// because a run cannot be completed (deadlock, no termination). The worker
+// uses it to report a run in which the race detector had already spoken.
+var FatalHook func(msg string)
+
+func fatal(msg string) {
+	if FatalHook != nil {
+		FatalHook(msg)
+	}
+	fmt.Fprintln(os.Stderr, msg)
+	os.Exit(2)
+}
 
 // EarlierOrphans counts goroutines the library started in earlier runs of
 // this process and that are still alive (parked for ever). If a later run
@@ -536,8 +551,7 @@ func (s *Sim) Run(estSteps int) {
 		}
 		if s.step > 8*s.MaxSteps+1000 {
 			raceEnable()
-			fmt.Fprintln(os.Stderr, "INFRA: simulated run does not terminate (step cap exceeded 8x)")
-			os.Exit(2)
+			fatal("INFRA: simulated run does not terminate (step cap exceeded 8x)")
 		}
 		if s.GCNum > 0 && s.Sched.Coin(s.GCNum, FaultDen) {
 			s.GC()
@@ -576,8 +590,17 @@ func (s *Sim) Run(estSteps int) {
 					fmt.Fprintf(os.Stderr, "ISOLATE: all %d live tasks are blocked while %d goroutines started by the library in earlier runs of this process are parked: runs depend on each other\n", k, EarlierOrphans)
 					os.Exit(77)
 				}
-				fmt.Fprintf(os.Stderr, "INFRA: deadlock among simulated tasks: all %d live tasks are blocked and no timer is pending (step %d)\n", k, s.step)
-				os.Exit(2)
+				msg := fmt.Sprintf("INFRA: deadlock among simulated tasks: all %d live tasks are blocked and no timer is pending (step %d)", k, s.step)
+				if RaceEnabled {
+					fatal(msg)
+				}
+				// Without the race detector nothing is lost by abandoning the
+				// blocked tasks: the harness can still report what the tasks
+				// recorded before (e.g. a panic that left a lock held); if
+				// they recorded nothing the worker turns this into exit 2.
+				s.Deadlocked = msg
+				raceDisable()
+				break
 			}
 			elig = append(elig, runnable[rr%k])
 			rr++
@@ -693,9 +716,12 @@ func (s *Sim) Run(estSteps int) {
 	}
 	s.finishedRun = true
 	s.inRun = false
+	s.Counters[CtSimMicros] += int64(s.now / 1000)
 	raceEnable()
 	close(stop)
-	s.wg.Wait()
+	if s.Deadlocked == "" {
+		s.wg.Wait()
+	}
 }
 
 // Orphans returns how many goroutines started by the library were still alive
